@@ -3,7 +3,8 @@ and to judge instances).
 
 {"name": "D", "base": "schema"|"dataclass"|"deco", "options": {...}, "local": bool,
  "fields": [{"name": attname, "type": TypeSpec, "f": FieldSpec}, ...],
- "parent": DeclSpec (optional, one level; same kind of base): the class inherits from it, fields of the same name are redeclared}
+ "parent": DeclSpec (optional, one level; same kind of base): the class inherits from it, fields of the same name are redeclared,
+ "extras": [{"kind": "method"|"classmethod"|"classvar", "name": str}] (optional): non-field members of the class (may be named like an input name of a field)}
 FieldSpec (all optional): required (true/false/"r"/"w"/"a"), default {"v": ValueSpec}, factory "list"|"dict"|"five",
  defer_default, alias str, alias_gen "upper"|"camel", alias_from [str], case_insensitive bool, no_input (true|"r"|"w"|"a"|"fn:falsy"),
  no_output (true|"r"|"w"|"a"|"fn:none"), mode str, readonly, writeonly, dependencies [attname|alias], on_error,
@@ -63,6 +64,10 @@ def validate(d):
             tspec.validate(fd["type"])
             if not isinstance(fd.get("f", {}), dict):
                 raise HarnessError("bad field spec")
+        for x in d.get("extras") or []:
+            if x["kind"] not in ("method", "classmethod", "classvar") or not isinstance(x["name"], str) or not x["name"].isidentifier() \
+                    or x["name"] in seen or x["name"].startswith("__"):
+                raise HarnessError("bad extra member")
         if d.get("parent") is not None:
             if not isinstance(d["parent"], dict) or d["parent"].get("parent") is not None:
                 raise HarnessError("bad parent")
@@ -89,6 +94,17 @@ def build_decl(d, registry=None):
             ns[fd["name"]] = codec.decode(f["plain_default"]["v"])
         elif f:
             ns[fd["name"]] = utype.Field(**field_kwargs(f))
+    for x in d.get("extras") or []:
+        if x["kind"] in ("method", "classmethod"):
+            # a function as the class body would define it (utype recognises methods by __name__ / __qualname__)
+            def member(self_or_cls):
+                return 1
+            member.__name__ = x["name"]
+            member.__qualname__ = (f"make.<locals>.{name}" if d.get("local") else name) + "." + x["name"]
+            ns[x["name"]] = classmethod(member) if x["kind"] == "classmethod" else member
+        else:
+            ann[x["name"]] = typing.ClassVar[int]
+            ns[x["name"]] = 3
     ns["__annotations__"] = ann
     ns["__module__"] = "vf.dspec"
     ns["__qualname__"] = (f"make.<locals>.{name}" if d.get("local") else name)
@@ -338,7 +354,7 @@ def field_spec(draw, t, name, others, rich=True, allow_required_modes=True):
 
 @st.composite
 def decl_specs(draw, rich=True, bases=("schema", "schema", "dataclass", "deco"), options=None, max_fields=4,
-               field_types=None, name="D", names=None, inherit=False):
+               field_types=None, name="D", names=None, inherit=False, extras=False):
     if names is None:
         n = draw(st.integers(1, max_fields))
         names = FIELD_NAMES[:n]
@@ -355,6 +371,16 @@ def decl_specs(draw, rich=True, bases=("schema", "schema", "dataclass", "deco"),
     o = draw(options) if options is not None else {}
     if o:
         d["options"] = o
+    if extras and draw(st.integers(0, 3)) == 0:
+        # methods / ClassVars of the class, often named like an accepted input name of one of its fields
+        pool = [n for fd in fields for n in in_names(fd)[1:] if n.isidentifier()] * 2 + ["helper", "total"]
+        taken = {fd["name"] for fd in fields}
+        xs = []
+        for n in draw(st.lists(st.sampled_from(pool), min_size=1, max_size=2, unique=True)):
+            if n not in taken:
+                xs.append({"kind": draw(st.sampled_from(["method", "classmethod", "classvar"])), "name": n})
+        if xs:
+            d["extras"] = xs
     if inherit and draw(st.integers(0, 2)) == 0:
         # a parent of the same kind; the subclass redeclares some of its fields (different aliases, defaults, ...) and adds others
         pnames = draw(st.lists(st.sampled_from(FIELD_NAMES), min_size=1, max_size=3, unique=True))
